@@ -649,3 +649,14 @@ pub fn check_list<Ix: IndexType>(g: &petgraph::adj::List<u32, Ix>, seed: u64) ->
     let _t = visit_battery_basic!(g, seed, nk, ek, [ecount, compact, adj], unique_edge_ids = true)?;
     Ok(())
 }
+
+pub fn check_graphmap_u32<Ty: EdgeType>(g: &GraphMap<u32, u32, Ty, SimBuildHasher>, seed: u64) -> Result<(), VErr> {
+    let nk = |n: u32| n as usize;
+    let directed = Ty::is_directed();
+    let ek = move |e: (u32, u32)| {
+        let (a, b) = if directed || e.0 <= e.1 { e } else { (e.1, e.0) };
+        ((a as u64) << 32) | (b as u64)
+    };
+    let _t = visit_battery_directed!(g, seed, nk, ek, [adj, compact], compact = true)?;
+    Ok(())
+}
